@@ -118,7 +118,7 @@ def rule_visited(ctx):
                     if render(s).replace(" ", "").startswith("self.black_paths.insert(%s.clone())" % v) or render(s).replace(" ", "").startswith("self.black_paths.insert(%s)" % v):
                         marked = True
         ctx.check(R, "take_next/marked-before-handed-out", marked, "black_paths.insert(%s) must precede `%s`" % (v, render(o)[:40]), site(INC, o))
-        popped = any(c.startswith("matchself.stack.pop()=>Some(%s)" % v) for c in cs)
+        popped = any(c.startswith("matchself.stack.pop()=>Some(%s)" % v) for c in cs) or any(c == "(letSome(%s)=self.stack.pop())" % v for c in cs)
         ctx.check(R, "take_next/value-comes-from-the-stack", popped, "conditions %s" % cs, site(INC, o))
     # current location is the directory of the file handed out
     t = render(fn["body"]).replace(" ", "")
@@ -197,6 +197,30 @@ def rule_resolution(ctx):
     from astlib import block_tail
     tail = block_tail(il["body"])
     ok = tail is not None and render(strip(tail)).replace(" ", "") == "Err(Box::new(error.into_report()))"
+    if not ok and tail is not None:
+        # the same through a helper / with the lets written out: Err(Box::new(<IncludeError {..}>.into_report()))
+        from astlib import result_expr as _rxe
+
+        def final_value(e, depth=0):
+            e = strip(e)
+            if e["k"] == "Block" and depth < 4:
+                env_ = sgrep.lets(e)
+                t_ = block_tail(e)
+                if t_ is None:
+                    return e
+                t_ = final_value(t_, depth + 1)
+                from pathcond import _subst
+
+                return _subst(t_, {k_: v_ for k_, v_ in env_.items()})
+            if e["k"] == "Call" and len(e["args"]) == 1 and depth < 4:
+                return dict(e, args=[final_value(e["args"][0], depth + 1)])
+            if e["k"] == "MethodCall" and depth < 4:
+                return dict(e, recv=final_value(e["recv"], depth + 1))
+            return e
+
+        fv = final_value(tail)
+        tt = render(fv).replace(" ", "")
+        ok = bool(re.fullmatch(r"Err\((?:Box::new\()?\(?IncludeError\{.*\}\)?\.into_report\(\)\)?\)", tt))
     ctx.check(R, "include_library/ends-with-the-include-error", ok, "tail: %s" % (render(tail)[:80] if tail else "?"), site(INC, il))
     le = let_env(il["body"])
     err = le.get("error")
